@@ -244,3 +244,193 @@ theorem agree_of_agreeB (env : Containers.Env) : ∀ (ops : List Op) (s : LSessi
       exact ⟨h.1, agree_of_agreeB env ops s h.2⟩
 
 end Sonic.Proofs.Ledger
+
+namespace Sonic.Proofs.Ledger
+open Sonic.Spec Sonic.Model.Dom Sonic.Model.Ledger
+open Sonic.Spec.Containers (Key Step Path PStep Val NodeOp Res Op Out AllocKind)
+open Sonic.Proofs.Dom (bind_refine map_refine)
+
+/-! ## completeness: the ledger interpreter rejects nothing else -/
+
+/-- the only commands accepted by `Model.Dom` that the ledger interpreter rejects: `dom-reset pool`, and a
+    cross-document move / swap of a subtree holding a view into a parse buffer -/
+def LifetimePre (s : LSession) : Op → Prop
+  | .reset a => a ≠ .pool
+  | .move _ _ d2 p2 => ∀ S v, s.docs[d2]? = some S → S.root.get p2 = some v → v.refs = []
+  | .swap d p d2 p2 => ∀ D S x y, s.docs[d]? = some D → s.docs[d2]? = some S → D.root.get p = some x →
+      S.root.get p2 = some y → x.refs = [] ∧ y.refs = []
+  | _ => True
+
+theorem map_via {α β γ δ : Type} {o : Option α} {o' : Option β} {ka : α → γ} {kb : β → γ}
+    (h : o.map ka = o'.map kb) (F : γ → δ) {f : α → δ} {g : β → δ} (hf : ∀ a, f a = F (ka a))
+    (hg : ∀ b, g b = F (kb b)) : o.map f = o'.map g := by
+  have h1 : o.map f = (o.map ka).map F := by rw [Option.map_map]; congr 1; funext a; exact hf a
+  have h2 : o'.map g = (o'.map kb).map F := by rw [Option.map_map]; congr 1; funext b; exact hg b
+  rw [h1, h2, h]
+
+theorem map_via2 {α β γ δ ε ζ : Type} {o : Option α} {o' : Option β} {ka : α → γ} {kb : β → γ}
+    (h : o.map ka = o'.map kb) (F : γ → δ) {f : α → ε} {e1 : ε → δ} {g : β → ζ} {e2 : ζ → δ}
+    (hf : ∀ a, e1 (f a) = F (ka a)) (hg : ∀ b, e2 (g b) = F (kb b)) :
+    (o.map f).map e1 = (o'.map g).map e2 := by
+  rw [Option.map_map, Option.map_map]
+  exact map_via h F hf hg
+
+theorem map_via2' {α γ δ ε ζ : Type} {o : Option α} {o' : Option γ} {ka : α → γ}
+    (h : o.map ka = o') (F : γ → δ) {f : α → ε} {e1 : ε → δ} {g : γ → ζ} {e2 : ζ → δ}
+    (hf : ∀ a, e1 (f a) = F (ka a)) (hg : ∀ b, e2 (g b) = F b) :
+    (o.map f).map e1 = (o'.map g).map e2 :=
+  map_via2 (kb := id) (by simpa using h) F hf hg
+
+theorem docs_bind_map_eq (s : LSession) (d : Nat) {α β γ : Type} (f : LDoc → Option α) (g : Node → Option β)
+    (ka : α → γ) (kb : β → γ) (h : ∀ doc, s.docs[d]? = some doc → (f doc).map ka = (g doc.erase).map kb) :
+    ((s.docs[d]?).bind f).map ka = ((s.erase.docs[d]?).bind g).map kb := by
+  rw [erase_docs_get]
+  cases hd : s.docs[d]? with
+  | none => rfl
+  | some doc => simpa using h doc hd
+
+theorem stepLive_erase_eq (env : Containers.Env) (s : LSession) (op : Op) (hpre : LifetimePre s op) :
+    (lstepLive env s op).map LSession.erase = (stepLive env s.erase op).map (·.1) := by
+  have halloc : s.erase.alloc = s.alloc := rfl
+  cases op with
+  | reset a =>
+    have : ¬ a = .pool := hpre
+    simp [lstepLive, stepLive, this, erase_fresh, Session.fresh]
+  | fin => simp [lstepLive, stepLive, erase_fresh, halloc]
+  | parse d text =>
+    simp only [lstepLive, stepLive]
+    have hlen : s.erase.docs.length = s.docs.length := by simp [LSession.erase]
+    cases hdoc : s.docs[d]? with
+    | none =>
+      have : ¬ d < s.erase.docs.length := by
+        rw [hlen]; intro h; rw [List.getElem?_eq_getElem h] at hdoc; simp at hdoc
+      simp [this]
+    | some doc =>
+      have : d < s.erase.docs.length := by rw [hlen]; exact (List.getElem?_eq_some_iff.1 hdoc).1
+      simp only [this, ↓reduceIte, Option.map_some]
+      cases env.parse text with
+      | none => simp [erase_docs_set, LDoc.erase]
+      | some v => simp [erase_docs_set, LDoc.erase, erase_lofJVal]
+  | node d p nop =>
+    simp only [lstepLive, stepLive]
+    refine docs_bind_map_eq s d _ _ _ _ fun doc _ => ?_
+    have hm := erase_modifyAt (g := Node.apply env nop) (fun x => erase_apply env nop x s.ledger.next) doc.root p
+    refine map_via2 hm (fun x => ({ s.erase with docs := s.erase.docs.set d x } : Session)) (fun e => ?_)
+      (fun r => rfl)
+    simp [erase_docs_set, LDoc.erase]
+  | move d p d2 p2 =>
+    simp only [lstepLive, stepLive, halloc]
+    split
+    · rename_i hdd
+      subst hdd
+      refine docs_bind_map_eq s d _ _ _ _ fun doc _ => ?_
+      refine map_via2' (show _ = moveNode doc.erase p p2 from erase_lmoveNode doc.root p p2)
+        (fun x => ({ s.erase with docs := s.erase.docs.set d x } : Session)) (fun e => ?_) (fun r => rfl)
+      simp [erase_docs_set, LDoc.erase]
+    · split
+      · rfl
+      · refine docs_bind_map_eq s d _ _ _ _ fun D _ => ?_
+        refine docs_bind_map_eq s d2 _ _ _ _ fun S hS => ?_
+        have he := erase_lmoveNode2 D.root p S.root p2
+        cases hm : lmoveNode2 D.root p S.root p2 with
+        | none =>
+          rw [hm] at he
+          simp only [Option.map_none] at he
+          have h1 : D.erase = D.root.erase := rfl
+          have h2 : S.erase = S.root.erase := rfl
+          simp [h1, h2, ← he]
+        | some r =>
+          rw [hm] at he
+          simp only [Option.map_some] at he
+          have h1 : D.erase = D.root.erase := rfl
+          have h2 : S.erase = S.root.erase := rfl
+          simp only [Option.bind_some, h1, h2, ← he, Option.map_some]
+          -- the source resolves (it was moved) and holds no parse-buffer view
+          unfold lmoveNode2 at hm
+          simp only [Option.bind_eq_some_iff] at hm
+          obtain ⟨v, hv, _⟩ := hm
+          have hnr := hpre S v hS hv
+          simp [hv, hnr, erase_docs_set2, LDoc.erase, halloc]
+  | copy d p d2 p2 cs =>
+    simp only [lstepLive, stepLive]
+    split
+    · rename_i hdd
+      subst hdd
+      refine docs_bind_map_eq s d _ _ _ _ fun doc _ => ?_
+      refine map_via2' (show _ = copyNode cs doc.erase p p2 from erase_lcopyNode cs doc.root p p2 s.ledger.next)
+        (fun x => ({ s.erase with docs := s.erase.docs.set d x } : Session)) (fun e => ?_) (fun r => rfl)
+      simp [erase_docs_set, LDoc.erase]
+    · refine docs_bind_map_eq s d _ _ _ _ fun D _ => ?_
+      refine docs_bind_map_eq s d2 _ _ _ _ fun S _ => ?_
+      refine map_via2' (show _ = copyNode2 cs D.erase p S.erase p2 from erase_lcopyNode2 cs D.root p S.root p2 s.ledger.next)
+        (fun x => ({ s.erase with docs := s.erase.docs.set d x } : Session)) (fun e => ?_) (fun r => rfl)
+      simp [erase_docs_set, LDoc.erase]
+  | swap d p d2 p2 =>
+    simp only [lstepLive, stepLive, halloc]
+    split
+    · rename_i hdd
+      subst hdd
+      refine docs_bind_map_eq s d _ _ _ _ fun doc _ => ?_
+      refine map_via2' (show _ = swapNodes doc.erase p p2 from erase_lswapNodes doc.root p p2)
+        (fun x => ({ s.erase with docs := s.erase.docs.set d x } : Session)) (fun e => ?_) (fun r => rfl)
+      have hset := erase_docs_set s d { doc with root := e } s.ledger
+      simp only at hset
+      simp [hset, LDoc.erase]
+    · split
+      · rfl
+      · refine docs_bind_map_eq s d _ _ _ _ fun D hD => ?_
+        refine docs_bind_map_eq s d2 _ _ _ _ fun S hS => ?_
+        have he := erase_lswapNodes2 D.root p S.root p2
+        have h1 : D.erase = D.root.erase := rfl
+        have h2 : S.erase = S.root.erase := rfl
+        cases hm : lswapNodes2 D.root p S.root p2 with
+        | none =>
+          rw [hm] at he
+          simp only [Option.map_none] at he
+          simp [h1, h2, ← he]
+        | some r =>
+          rw [hm] at he
+          simp only [Option.map_some] at he
+          simp only [Option.bind_some, h1, h2, ← he, Option.map_some]
+          have hm' := hm
+          unfold lswapNodes2 at hm'
+          simp only [Option.bind_eq_some_iff, Option.map_eq_some_iff] at hm'
+          obtain ⟨x, hx, y, hy, D', _, S', _, hr⟩ := hm'
+          have hnr := hpre D S x y hD hS hx hy
+          subst hr
+          have hset := erase_docs_set2 s d d2 { D with root := D' } { S with root := S' } s.ledger
+          simp only at hset
+          simp [hnr.1, hnr.2, hset, LDoc.erase, halloc]
+  | docMove d d2 =>
+    simp only [lstepLive, stepLive]
+    split
+    · rfl
+    · refine docs_bind_map_eq s d _ _ _ _ fun D _ => ?_
+      refine map_via2' (erase_docs_get s d2).symm
+        (fun x => ({ s.erase with docs := (s.erase.docs.set d x).set d2 .null } : Session)) (fun S => ?_)
+        (fun r => rfl)
+      simp [erase_docs_set2, LDoc.erase, LDoc.fresh]
+  | docSwap d d2 =>
+    simp only [lstepLive, stepLive]
+    refine docs_bind_map_eq s d _ _ _ _ fun D _ => ?_
+    refine map_via2' (erase_docs_get s d2).symm
+      (fun x => ({ s.erase with docs := (s.erase.docs.set d x).set d2 D.erase } : Session)) (fun S => ?_)
+      (fun r => rfl)
+    have hset := erase_docs_set2 s d d2 S D s.ledger
+    simp only at hset
+    simp [hset]
+
+theorem step_erase_eq (env : Containers.Env) (s : LSession) (op : Op) (hpre : LifetimePre s op) :
+    (lstep env s op).map LSession.erase = (step env s.erase op).map (·.1) := by
+  have hlive : s.erase.live = s.live := rfl
+  cases op with
+  | reset a =>
+    have : ¬ a = .pool := hpre
+    simp [lstep, step, this, erase_fresh, Session.fresh]
+  | fin | parse _ _ | node _ _ _ | move _ _ _ _ | copy _ _ _ _ _ | swap _ _ _ _ | docMove _ _ | docSwap _ _ =>
+    simp only [lstep, step, hlive]
+    split
+    · exact stepLive_erase_eq env s _ hpre
+    · rfl
+
+end Sonic.Proofs.Ledger
